@@ -36,7 +36,7 @@ ASSUMPTIONS = ['time is the integers (ticks); timesteps >= 1; float time and '
 BOUNDS = {
     'quick': 'configurations const(N<=3,M=2,B=4), adaptive(N=1,M=2,B=4; '
              'N=2,M=1,B=3), cond-const(N<=2,M=2,B=3), cond-fresh(N=1,M=2,B=3; '
-             'N=2,M=1,B=3), empty(N=0), precision in {None,0}; every force flag '
+             'N=2,M=1,B=3), cond-mixed (one unconditioned + one fresh-condition process, N=2,M=2,B=3), empty(N=0), precision in {None,0}; every force flag '
              'symbolic; K = B+2 passes per call',
     'thorough': 'const(N<=3,M<=3,B<=6), adaptive(N=2,M=2,B=3), '
                 'cond-const(N=3,M=2,B=4), cond-fresh(N=2,M=2,B=3), wide '
@@ -72,6 +72,7 @@ def jobs(tier):
         J.append(_cfg('condfresh-N2', 2, 1, 3, 'const', 'fresh', tier))
         J.append(_cfg('condfresh-adaptive-N1', 1, 2, 3, 'adaptive', 'fresh',
                       tier))
+        J.append(_cfg('condmixed-N2-M2', 2, 2, 3, 'const', 'mixed', tier))
     else:
         J.append(_cfg('empty', 0, 3, 6, 'const', 'none', tier))
         for N, M, B in ((1, 3, 6), (2, 3, 5), (3, 2, 4), (2, 2, 8)):
